@@ -30,7 +30,7 @@ safe argument stages the builder neither panics at compile time nor returns a st
   regenerated from /repo (`Gen/C08.lean`), admits only safe arguments for all int64 inputs, and equals
   the guard of the hand model (`repeat_guard_safe`, `substr_bounds_safe`, `select_slices_safe`,
   `slice_bounds_safe`, `precision_guard_safe`, `divi_guard_safe`, `modi_guard_safe`,
-  `getmatch_bounds_safe`, `compile_escape_safe`, `bar_guard_safe` and the `…_eq_model` / `…_eq_gen` ties).
+  `bucket_guard_safe`, `getmatch_bounds_safe`, `compile_escape_safe`, `bar_guard_safe` and the `…_eq_model` / `…_eq_gen` ties).
 * `ext_safe`, `world_compile_eval_total`: `color`, `bar`, `load`, `json` (`Funcs/Extra.lean`) are
   panic-free in every world (any float arithmetic, colour/unicode switches, file system), assuming only
   that the gjson library call returns.
@@ -453,6 +453,28 @@ theorem divi_eq_model (a b : Int) :
 
 example : Gen.C08.diviGuard 1 0 = true ∧ Gen.C08.diviGuard minInt64 (-1) = false ∧ Gen.C08.diviVal 7 (-2) = -3 ∧
     Gen.C08.modiVal (-7) 2 = -1 := by decide
+
+/-! ### `bucket` / `bucketrange` : the constant size is the divisor of `val / bucketSize` -/
+
+/-- A constant bucket size that passes the guard is positive: `val / bucketSize` cannot divide by zero
+    (and, the divisor being positive, `MinInt64 / -1` cannot occur); the guard is the model's, and the
+    guarded divisions are the only `/` `%` of the two closures. -/
+theorem bucket_guard_safe (size : Int) :
+    (Gen.C08.bucketSizeGuard size = false → 0 < size) ∧
+    (Gen.C08.bucketRangeSizeGuard size = false → 0 < size) ∧
+    Gen.C08.bucketSizeGuard size = decide (size ≤ 0) ∧
+    Gen.C08.bucketRangeSizeGuard size = decide (size ≤ 0) ∧
+    Gen.C08.bucketDivisions = ["kfBucket: val / bucketSize", "kfBucketRange: val / bucketSize"] := by
+  refine ⟨?_, ?_, rfl, rfl, rfl⟩
+  · unfold Gen.C08.bucketSizeGuard
+    simp only [decide_eq_false_iff_not, Int.not_le]
+    exact id
+  · unfold Gen.C08.bucketRangeSizeGuard
+    simp only [decide_eq_false_iff_not, Int.not_le]
+    exact id
+
+example : Gen.C08.bucketSizeGuard 0 = true ∧ Gen.C08.bucketSizeGuard (-9223372036854775808) = true ∧
+    Gen.C08.bucketRangeSizeGuard 1 = false := by decide
 
 /-! ### `GetMatch` implementations : sub-contexts and match contexts -/
 
